@@ -11,7 +11,7 @@ import sqlparse
 from sqlparse import cli
 
 from gen import grammar as G, options as O, chars
-from oracles.treecheck import shape
+from oracles.treecheck import flat_shape as shape
 from vlib.core import Leg, Result, exc_failure
 
 ID = 'C19'
